@@ -19,14 +19,82 @@ open ZipVerif ZipVerif.Model ZipVerif.Spec.Zip ZipVerif.WL
 the writer state `{ init with files := (viewOf l).map appendRecord, comment := l.comment, writing_raw := true }`; the sink
 still holds the archive and is positioned on the first byte of the OLD central directory
 (`l.pre.length + l.cdOffset`), which the appending writer overwrites.  The unconditional disk-number
-check and the D16 check `directory_start > cde_start` pass on a layout. -/
-theorem newAppend_on_layout (l : Layout) (hF : l.Fits) (hR : l.Readable) (hS : Spec.Zip.NoFalseSig l)
+check and the D16 check `directory_start > cde_start` pass on a layout.
+
+`hN` (NEW with the A6 repair; the theorem was false for the repaired code without it and described a
+writer that could only produce a corrupt archive before): every DECODED name still fits the 16-bit name
+length field.  It follows from `Fits` for every name that decodes to itself (`appendNameFits_of_clean`);
+when it fails `new_append` refuses the archive: `newAppend_refuses_long_name`. -/
+theorem newAppend_on_layout (l : Layout) (hF : l.Fits) (hN : ∀ e ∈ l.entries, AppendNameFits e)
+    (hR : l.Readable) (hS : Spec.Zip.NoFalseSig l)
     (ht : l.trailing = [] ∨ l.needs64 = false) :
     ∃ d', newAppend.runPure (Dev.ofBytes (build l)) =
         (.ok { WState.init with files := (viewOf l).map appendRecord, comment := l.comment,
                                 writingRaw := true }, d') ∧
       d'.buf = build l ∧ d'.pos = l.cdStart :=
-  Model.newAppend_on_layout l hF hR hS ht
+  Model.newAppend_on_layout l hF hN hR hS ht
+
+/-- **`newAppend_refuses_long_name`** (A6 repair) — on the bytes of a layout one of whose entries has a
+name that DECODES (CP437 → UTF-8, or ill-formed flagged UTF-8 → U+FFFD) to more than 65535 bytes,
+`new_append` returns `UnsupportedArchive` and the sink still holds exactly the old archive.  Before the
+repair it returned a writer; `finish()` then wrote `name.len() as u16` into the rewritten central record,
+followed by the whole name, and reported success for an archive that no longer opens (witness: one entry
+named 21846 × 0xB0, corpus/append.ops). -/
+theorem newAppend_refuses_long_name (l : Layout) (hF : l.Fits) (hR : l.ReadableZ)
+    (hS : Spec.Zip.NoFalseSig l) (ht : l.trailing = [] ∨ l.needs64 = false)
+    (hbad : ∃ e ∈ l.entries, ¬ AppendNameFits e) :
+    ∃ d', newAppend.runPure (Dev.ofBytes (build l)) = (.err .unsupportedArchive, d') ∧
+      d'.buf = build l :=
+  Model.newAppend_refuses_long_name l hF hR hS ht hbad
+
+/-- A name that decodes to itself is never refused. -/
+theorem appendNameFits_of_clean (e : Entry) (hf : e.Fits) (hc : AppendClean e) : AppendNameFits e :=
+  WL.appendNameFits_of_clean e hf hc
+
+/-- CP437 0xB0 ('░', U+2591) needs three UTF-8 bytes. -/
+theorem mapToChar_b0 : ∀ n : Nat, ∃ cs : List Char, Model.mapToChar (List.replicate n 0xB0) = .ok cs ∧
+    (Spec.utf8Encode cs).length = 3 * n
+  | 0 => ⟨[], rfl, rfl⟩
+  | n + 1 => by
+    obtain ⟨cs, h1, h2⟩ := mapToChar_b0 n
+    have hc : Model.toChar 0xB0 = .ok (Char.ofNat 0x2591) := by rfl
+    refine ⟨Char.ofNat 0x2591 :: cs, ?_, ?_⟩
+    · rw [List.replicate_succ]
+      unfold Model.mapToChar
+      rw [hc, h1]
+    · show (Spec.utf8EncodeChar (Char.ofNat 0x2591) ++ Spec.utf8Encode cs).length = _
+      rw [List.length_append, h2]
+      have : (Spec.utf8EncodeChar (Char.ofNat 0x2591)).length = 3 := by decide
+      omega
+
+theorem decode_b0_length (n : Nat) :
+    (Text.decodeToUtf8 false (List.replicate (n + 1) 0xB0)).length = 3 * (n + 1) := by
+  obtain ⟨cs, h1, h2⟩ := mapToChar_b0 (n + 1)
+  unfold Text.decodeToUtf8 Model.decodeName Model.fromCp437
+  have ha : Model.allAscii (List.replicate (n + 1) 0xB0) = false := by
+    rw [List.replicate_succ]; rfl
+  simp only [ha, Bool.false_eq_true, if_false, h1]
+  exact h2
+
+/-- Non-vacuity of `hbad`, and the boundary: an unflagged name of 21846 bytes 0xB0 `Fits` (21846 ≤ 65535)
+but decodes to 65538 bytes, one of 21845 bytes decodes to exactly 65535 bytes and is accepted. -/
+theorem long_cp437_name_not_rewritable (e : Entry) (hfl : e.flagsOut &&& 0x0800 = 0) :
+    ¬ AppendNameFits { e with name := List.replicate 21846 0xB0 } ∧
+    (e.name = List.replicate 21845 0xB0 → AppendNameFits e) := by
+  constructor
+  · unfold AppendNameFits
+    have hf : ({ e with name := List.replicate 21846 0xB0 } : Entry).flagsOut = e.flagsOut := rfl
+    rw [hf, hfl]
+    show ¬ (Text.decodeToUtf8 false (List.replicate (21845 + 1) 0xB0)).length ≤ 65535
+    rw [decode_b0_length]; omega
+  · intro hn
+    unfold AppendNameFits
+    rw [hfl, hn]
+    show (Text.decodeToUtf8 false (List.replicate (21844 + 1) 0xB0)).length ≤ 65535
+    rw [decode_b0_length]; omega
+
+open ZipVerif.Props.C03 (exA) in
+example : exA.flagsOut &&& 0x0800 = 0 := by decide
 
 /-- What `appendRecord` (the D20 repair) does to a re-hydrated record: only the extra field changes — the
 inherited ZIP64 records are dropped; for a `Readable` entry exactly the foreign records remain. -/
@@ -236,13 +304,29 @@ example :
     (appendNorm e 0 0).name = [0xc3, 0xbc] ∧ (appendNorm e 0 0).flags = 0x0800 ∧ ¬ AppendClean e ∧
     (appendNorm e 0 0).localBytes.length = e.localBytes.length + 1 := by decide +kernel
 
+/-- **K-A2 (known finding), kernel-checked counterexample to "the rewritten central record and the untouched
+local header of an old entry agree"**: one entry with the unflagged CP437 name `[0x81]`.  The central
+record the writer emits for the re-hydrated record IS the spec's central record of the normalised entry
+(so the model says exactly what the code writes), that record names the entry `[0xc3, 0xbc]` with bit 11
+set, while the local header — which `new_append` never touches — still carries `[0x81]` with flags 0.
+What holds instead: `C13Layout.old_names_kept` (`old_names_kept_partial`) under `AppendClean`. -/
+theorem ka2_names_disagree_witness :
+    let e : Entry := { exA with name := [0x81] }
+    (match centralHeaderChunks (appendRecord (viewEntry e 0 0 0)) with
+     | .ok cs => ser cs == centralRecord (appendNorm e 0 0) 0 &&
+        ((ser cs).drop 8).take 2 == [0x00, 0x08] && ((ser cs).drop 46).take 2 == [0xc3, 0xbc]
+     | _ => false) = true ∧
+    ((localRecord e).drop 6).take 2 = [0x00, 0x00] ∧ ((localRecord e).drop 30).take 1 = [0x81] ∧
+    ¬ AppendClean e ∧ e.Fits ∧ e.Readable ∧ AppendNameFits e := by decide +kernel
+
 /-- A layout all of whose entries are `AppendClean`, satisfying every hypothesis of
 `append_open_is_base_state`; the conclusion evaluated. -/
 def exLc : Layout :=
   { exL with entries := [exA, { exA with name := [0xc3, 0xbc], flags := 0x0800, gapBefore := [7, 7] }, exBd] }
 
 example : exLc.Fits ∧ exLc.Readable ∧ Spec.Zip.NoFalseSig exLc ∧ exLc.needs64 = false ∧
-    (∀ e ∈ exLc.entries, AppendClean e ∧ e.centralExtra.length + 56 ≤ 0xFFFF) := by decide +kernel
+    (∀ e ∈ exLc.entries, AppendClean e ∧ e.centralExtra.length + 56 ≤ 0xFFFF) ∧
+    (∀ e ∈ exLc.entries, AppendNameFits e) := by decide +kernel
 
 example :
     localsBytes (appendNormAll exLc) ++ appendGap exLc = (build exLc).take exLc.cdStart ∧
